@@ -205,6 +205,24 @@ def compact_requests(run, overlapping=True):
     return [(f"compact {compactgen.fmt(cells)}", exp) for cells, exp in out]
 
 
+def light_compact_requests(run):
+    """medium-sized lists (5*10^3 .. 2.5*10^4 cells: above any plausible 'small input' shortcut, cheap enough for every run)"""
+    rng = run.rng
+    base = [spec.encode(0, f, ()) for f in range(12)]
+    out = []
+    for R, k in ((5, 4), (6, 1), (5, 12), (6, 3)):
+        bs = rng.sample(base, k)
+        cells = [x for b in bs for x in _fill(b, R)]
+        if rng.random() < 0.5:
+            rng.shuffle(cells)
+        out.append((cells, sorted(bs) if k < 12 else [0]))
+    q = spec.encode(1, rng.randrange(60), ())
+    cells = _fill(q, 7)
+    cells.pop(rng.randrange(len(cells)))
+    out.append((cells, None))
+    return [(f"compact {compactgen.fmt(cells)}", exp) for cells, exp in out]
+
+
 def check_compact(run, items, label):
     """bulk compact requests: full result compared with the model (as a set) and with the expected cover when the input does not overlap;
     always: canonical ids, no duplicates, no member above another (when the input had none)"""
